@@ -64,7 +64,7 @@ def main():
                 results[pid] = dict(exit=rc, violation_lines=viol[:3], first_replay=replay)
                 print(f"[{name}] ./check {pid} quick -> exit {rc}; {viol[:1]}")
         finally:
-            sh("git -C /repo checkout -- .")
+            sh("git -C /repo checkout -- . && git -C /repo clean -fdq src")
             sh("rm -rf /verif/replays")
     dst = os.path.join(ROOT, "seeded", name)
     os.makedirs(dst, exist_ok=True)
